@@ -269,3 +269,112 @@ example : arun .readOnly [3, 4, 5] [.read, .poke 1 7, .read]
     = [.arr [3, 4, 5], .readOnlyError, .arr [3, 4, 5]] := by decide
 
 end DclabModel.C17
+
+namespace DclabModel.C17
+open DclabModel.Cache
+
+/-! ## 5. the dict and the FIFO key list stay in sync (memory bound) -/
+
+/-- `Cache._cache` holds exactly the keys of `Cache._keys`, each once -/
+def Sync [DecidableEq K] (s : St K V) : Prop :=
+  (s.store.map Prod.fst).Perm s.keys ∧ s.keys.Nodup
+
+theorem erase_of_not_mem [DecidableEq K] (d : K) :
+    ∀ l : List (K × V), d ∉ l.map Prod.fst → erase d l = l := by
+  intro l
+  induction l with
+  | nil => intro _; rfl
+  | cons h t ih =>
+    obtain ⟨k, v⟩ := h
+    intro hd
+    simp only [List.map_cons, List.mem_cons, not_or] at hd
+    simp only [erase]
+    split
+    · rename_i hk; exact absurd hk.symm hd.1
+    · rw [ih hd.2]
+
+theorem erase_map_fst [DecidableEq K] (d : K) :
+    ∀ l : List (K × V), (l.map Prod.fst).Nodup → (erase d l).map Prod.fst = (l.map Prod.fst).erase d := by
+  intro l
+  induction l with
+  | nil => intro _; rfl
+  | cons h t ih =>
+    obtain ⟨k, v⟩ := h
+    intro hn
+    simp only [List.map_cons, List.nodup_cons] at hn
+    simp only [erase, List.map_cons]
+    split
+    · rename_i hk
+      subst hk
+      rw [erase_of_not_mem k t hn.1, List.erase_cons_head]
+    · rename_i hk
+      rw [List.map_cons, ih hn.2, List.erase_cons_tail (by simpa using hk)]
+
+theorem lookup_none_not_mem [DecidableEq K] (k : K) :
+    ∀ l : List (K × V), lookup k l = none → k ∉ l.map Prod.fst := by
+  intro l
+  induction l with
+  | nil => intro _ h; cases h
+  | cons h t ih =>
+    obtain ⟨k', v⟩ := h
+    simp only [lookup]
+    split
+    · intro h; cases h
+    · rename_i hk
+      intro h
+      simp only [List.map_cons, List.mem_cons, not_or]
+      exact ⟨fun e => hk e.symm, ih h⟩
+
+theorem call_sync [DecidableEq K] (c : Cfg A K V) (s : St K V) (a : A) (h : Sync s) :
+    Sync (call c s a).1 := by
+  obtain ⟨hp, hn⟩ := h
+  unfold call
+  cases hl : lookup (c.enc a) s.store with
+  | some v => simp only [hl]; exact ⟨hp, hn⟩
+  | none =>
+    simp only [hl]
+    have hk : c.enc a ∉ s.store.map Prod.fst := lookup_none_not_mem _ _ hl
+    have hk' : c.enc a ∉ s.keys := fun hm => hk (hp.symm.subset hm)
+    have hp1 : (((c.enc a, c.f a) :: s.store).map Prod.fst).Perm (s.keys ++ [c.enc a]) := by
+      simp only [List.map_cons]
+      exact ((List.perm_append_singleton (c.enc a) s.keys).trans (hp.symm.cons _)).symm
+    have hn1 : (s.keys ++ [c.enc a]).Nodup := by
+      rw [List.nodup_append]
+      refine ⟨hn, by simp, ?_⟩
+      intro x hx y hy
+      simp only [List.mem_singleton] at hy
+      subst hy; intro e; subst e; exact hk' hx
+    by_cases hover : (s.keys ++ [c.enc a]).length > c.cap
+    · simp only [hover, if_true]
+      cases hks : s.keys ++ [c.enc a] with
+      | nil => simp at hks
+      | cons d rest =>
+        simp only
+        rw [hks] at hp1 hn1
+        have hsn : (((c.enc a, c.f a) :: s.store).map Prod.fst).Nodup := hp1.nodup_iff.mpr hn1
+        refine ⟨?_, (List.nodup_cons.mp hn1).2⟩
+        rw [erase_map_fst d _ hsn]
+        have := hp1.erase d
+        rwa [List.erase_cons_head] at this
+    · simp only [hover, if_false]
+      exact ⟨hp1, hn1⟩
+
+/-- **Memory bound of `dclab.cached.Cache`.** After every history of calls the dict holds
+exactly the keys of the FIFO list, each once, hence at most `MAX_SIZE` entries. -/
+theorem memo_store_bounded [DecidableEq K] (c : Cfg A K V) :
+    ∀ (hist : List A) (s : St K V), Sync s → s.keys.length ≤ c.cap →
+      Sync (runCalls c s hist).1 ∧ (runCalls c s hist).1.store.length ≤ c.cap := by
+  intro hist
+  induction hist with
+  | nil =>
+    intro s h hb
+    refine ⟨h, ?_⟩
+    have := h.1.length_eq
+    simp only [List.length_map] at this
+    simp only [runCalls]; omega
+  | cons x xs ih =>
+    intro s h hb
+    simp only [runCalls]
+    exact ih _ (call_sync c s x h) (call_keys_bounded c s x hb)
+
+end DclabModel.C17
